@@ -267,6 +267,32 @@ def run(ctx):
                     ctx.fail('overread:plain', f'{f}({req}) on a slice of a plain-bitarray cell with {n} bits returned data', {'n': n, 'req': req, 'f': f}, repr(r)[:80], 'exception')
                 except Exception:
                     pass
+    # a builder / bit array cannot be created with more than 1023 bits of room (or, if it can, still refuses the 1024th bit)
+    from pytoniq_core.boc.builder import Builder
+    from pytoniq_core.boc.tvm_bitarray import TvmBitarray
+    for size in (1024, 1025, 2047, 4096, 1 << 20):
+        for what, mk in (('Builder(size)', lambda: Builder(size)), ('TvmBitarray(size)', lambda: TvmBitarray(size)),
+                         ('Builder(); b.size = size', lambda: setattr(Builder(), 'size', size) or None)):
+            ctx.case(('oversize-ctor', what, size))
+            ctx.count('oversize-ctor')
+            try:
+                obj = mk()
+            except BaseException:
+                continue
+            if obj is None:
+                ctx.fail('capacity:size-setter', f'{what} with size {size} was accepted', {'what': what, 'size': size}, 'accepted', 'exception')
+                continue
+            try:
+                target = obj if isinstance(obj, Builder) else None
+                if target is not None:
+                    target.store_bits('1' * 1023)
+                    target.store_bit(1)
+                    ctx.fail('capacity:oversize-builder', f'{what} with size {size}: a 1024th bit was stored', {'what': what, 'size': size}, len(target.bits), '<= 1023')
+                else:
+                    obj.extend('1' * 1024)
+                    ctx.fail('capacity:oversize-bitarray', f'{what} with size {size}: 1024 bits were stored', {'what': what, 'size': size}, len(obj), '<= 1023')
+            except Exception:
+                pass
     # depth limit through the builder
     from pytoniq_core import begin_cell
     c = begin_cell().end_cell()
